@@ -1133,9 +1133,9 @@ class Tifa(TifaCore, ast.NodeVisitor):
         return self.visit(node.value).break_apart()
 
     def visit_Tuple(self, node) -> TupleType:
-        # Fun fact, it's impossible to make a literal empty set
+        # An empty tuple has no element types (TupleType takes the elements, not an "is empty" flag)
         if not node.elts:
-            return TupleType(True)
+            return TupleType([])
 
         # All literal keys
         return TupleType([self.visit(v) for v in node.elts])
